@@ -36,6 +36,17 @@ DEFS = [
     ('skip::S2', '\n-', range(0, 3), (0,), ['-?', '--?', '\n?', '---?', 'a-?', '--\n?', '-??', '->?'], (0, 1)),
     ('utf8::U1', '', range(0, 3), (0,), ['é?', '€?', '€€?', '€€x?', '😀?', 'aß?', '?', 'ö?', '€é?', 'Ã?'[:0] + 'a?'], (0,)),
     ('utf8::U2', '', range(0, 2), (0,), ['x?', 'x??', '"?', '"é?', '"€"?', 'x€?', '"a?'], (0,)),
+    ('callbacks::K1', 'efghkl', range(0, 2), (0,), [c + '?' for c in 'abcdefghijklmn'] + ['n?!', 'n5?', 'e1a?', 'g0b?', 'f1f4c?', 'h0m?', 'l1??', '!?', 'n1!?'], (0,)),
+    ('callbacks::K2', 'pqrs', range(0, 2), (0,), ['p?', 'q?', 'r?', 's?', 'x?', 'pqa?', 'r0x?', 's0?', '?', 'a?', 'r1?', 'pr0qs0x?'], (0,)),
+    ('literal::L1', '', range(0, 3), (0, 1), ['a?', 'a.?', 'a.b?', 'a.b*?', '[?', '[x?', '\\?', '$?', 'a|?', '+?', 'a??', '?0', 'ab?'], (0,)),
+    ('literal::L2', '', range(0, 3), (0,), ['é?', 'é|?', 'é|€?', '.?', 'é??', '\\?'], (0,)),
+    ('literal::I1', 'zZ', range(0, 2), (0,), ['a?', 'A?', 'k?', 'K?', 'x?', 'X?', 'kß?', 'K?\u1e9e'[:2], 'z?', 'Za?', 'a.?', 'q?', '\u212a?', 'k??'], (0,)),
+    ('literal::I2', '', range(0, 4), (0, 1), ['k?', 'K?', 'a?', 'y?', 'Z?', 'ab?'], (0,)),
+    ('twins::P1', '', range(0, 2), (0,), ['1?', '12?', '1x?', 'a?', 'bc?', 'b?', 'y1?', 'y12?', 'q?', 'Q?', 'w?', 'w€?', 'we?', 'ad?', '??'], (0,)),
+    ('twins::P2', '', range(0, 3), (0,), ['x?', 'a?', 'a\u00e9?'[:0] + 'ab?', 'abc?', 'b!?', '??'], (0,)),
+    ('twins::O1', 'sS', range(0, 2), (0,), ['a?', 'ab?', 'A?', 'Ab?', 'd?', 'dxe?', 'dxex?', 's?', 'sSa?', 'abc?', 'D?e'], (0,)),
+    ('twins::O2', '_', range(0, 3), (0,), ['1?', '_?', 'n?', '_1?', '12_?'], (0,)),
+    ('twins::Q1', ' ', range(0, 4), (0,), ['.?', '..?', '...?', ' ?', '. ?', '.. .?'], (0,)),
     ('utf8::E2', '', range(0, 4), (0,), ['a?', 'a€?', 'a??', '€?', '😀?', '???', '????'], (0,)),
 ]
 
@@ -50,9 +61,10 @@ for (ty, skipb, lens, fstarts, ctxs, cstarts) in DEFS:
     for n in lens:
         for s in fstarts:
             if s > n: continue
-            add('spec_%s_n%d_s%d' % (short, n, s), max(n + 5, 10), 'attempt_vs_spec::<%s, %d>(&any(), %d)' % (ty, n, s), d=short, kind='spec', n=n, s=s, sym=n)
+            msk = n if skipb else 0
+            add('spec_%s_n%d_s%d' % (short, n, s), max(n + 5, 10), 'attempt_vs_spec_sk::<%s, %d>(&any(), %d, %d, false)' % (ty, n, s, msk), d=short, kind='spec', n=n, s=s, sym=n)
             if n <= 2 and s == 0:
-                add('specc_%s_n%d_s%d' % (short, n, s), max(n + 5, 10), 'attempt_vs_spec_cov::<%s, %d>(&any(), %d)' % (ty, n, s), d=short, kind='specc', n=n, s=s, sym=n)
+                add('specc_%s_n%d_s%d' % (short, n, s), max(n + 5, 10), 'attempt_vs_spec_sk::<%s, %d>(&any(), %d, %d, true)' % (ty, n, s, msk), d=short, kind='specc', n=n, s=s, sym=n)
     seen = set()
     for c in ctxs:
         bs = ctx_bytes(c)
@@ -83,6 +95,49 @@ for (ty, pred, skels, starts) in SKEL:
                     'attempt_skeleton::<%s, %d>([%s], %d, %s, %s)' % (ty, len(bs), arr, s, pred, 'true' if cov else 'false'),
                     d=short, kind='skelc' if cov else 'skel', n=len(bs), s=s, sym=bs.count(None), ctx=sk)
 
+# ---- relational harnesses
+def ctx_arr(c):
+    bs = ctx_bytes(c)
+    return bs, ', '.join('None' if b is None else 'Some(%d)' % b for b in bs)
+TWINS = [  # (A, B, need_utf8, contexts)
+    ('twins::P1', 'twins::P1T', True, ['?', '??', '1?', '12?', '1x?', 'a?', 'bc?', 'b?', 'bcd?', 'y1?', 'y12?', 'q?', 'Q?', 'qz?', 'w?', 'w€?', 'we?', 'wew?', 'ad?']),
+    ('twins::P2', 'twins::P2T', False, ['?', '??', 'x?', 'a?', 'ab?', 'abc?', 'b!?', 'a??']),
+    ('twins::O1', 'twins::O1A', False, ['?', '??', 'a?', 'ab?', 'A?', 'Ab?', 'd?', 'dxe?', 'dxex?', 's?', 'sSa?', 'abc?', 'D?e']),
+    ('twins::O1', 'twins::O1B', False, ['?', '??', 'a?', 'ab?', 'A?', 'Ab?', 'd?', 'dxe?', 'dxex?', 's?', 'sSa?', 'abc?', 'D?e']),
+    ('twins::O2', 'twins::O2A', False, ['?', '??', '???', '1?', '_?', 'n?', '_1?', '12_?']),
+]
+for (a, b, u8_, ctxs) in TWINS:
+    sa, sb = a.split('::')[-1], b.split('::')[-1]
+    for c in ctxs:
+        bs, arr = ctx_arr(c)
+        add('twin_%s_%s_%s_s0' % (sa, sb, ctx_name(c)), max(len(bs) + 6, 10),
+            'twins_agree_ctx::<%s, %s, %d>([%s], 0, %s)' % (a, b, len(bs), arr, 'true' if u8_ else 'false'),
+            d=sa, kind='twin', n=len(bs), s=0, sym=bs.count(None), ctx=c, other=sb)
+MODES = [
+    ('utf8::U1', 'twins::M1B', ['?', '??', 'é?', '€?', '€€?', '€€x?', '😀?', 'aß?', 'ö?', '€é?', 'a?', '???', 'a???']),
+    ('utf8::U2', 'twins::M2B', ['?', '??', 'x?', 'x??', '"?', '"é?', '"€"?', 'x€?', '"a?', 'x???']),
+]
+for (a, b, ctxs) in MODES:
+    sa, sb = a.split('::')[-1], b.split('::')[-1]
+    for c in ctxs:
+        bs, arr = ctx_arr(c)
+        add('modes_%s_%s_%s_s0' % (sa, sb, ctx_name(c)), max(len(bs) + 6, 10),
+            'modes_agree::<%s, %s, %d>([%s], 0)' % (a, b, len(bs), arr), d=sa, kind='modes', n=len(bs), s=0, sym=bs.count(None), ctx=c, other=sb)
+PART = [  # (T, contexts, start)  -- every split point k < N
+    ('twins::Q1', ['.?', '..?', '...?', ' .?', '. ?', '??', '???', '.. ?'], 0),
+    ('basic::B1', ['i?', 'if?', 'ifx?', '1?', '1.?', '1.5?', '??', 'a1?'], 0),
+    ('basic::B2', ['a?', 'ab?', 'abc?', 'aa?', '??', '???'], 0),
+    ('basic::E1', ['ab?', 'abc?', 'abcd?', 'x1?', 'x?y'], 0),
+    ('skip::S2', ['-?', '--?', '-\n?', '->?'], 0),
+    ('utf8::U1', ['€?', '€€?', 'é?', 'a?'], 0),
+]
+for (t, ctxs, st) in PART:
+    short = t.split('::')[-1]
+    for c in ctxs:
+        bs, arr = ctx_arr(c)
+        for k in range(st, len(bs)):
+            add('part_%s_%s_k%d' % (short, ctx_name(c), k), max(len(bs) + 6, 10),
+                'partial_ctx::<%s, %d, %d>([%s], %d)' % (t, len(bs), k, arr, st), d=short, kind='part', n=len(bs), s=st, sym=bs.count(None), ctx=c, k=k)
 out.append('}')
 dst = sys.argv[1] if len(sys.argv) > 1 else 'src/harness_list.rs'
 open(dst, 'w').write('\n'.join(out) + '\n')
